@@ -61,7 +61,8 @@ def judge_ls(c, tag, x, p, method, a, e, feats):
     c.compare('%s:residual-orthogonal-to-regressors' % tag, g, np.zeros_like(g), 1e-9 * max(1.0, cond), feats,
               scale=max(nA * nb, 1e-300), detail={'N': len(x), 'order': p, 'cond': cond})
     energy = float(np.real(np.vdot(res, res)))
-    scale = max(nb ** 2, 1e-300)
+    # rounding of the error energy is relative to the energies that enter it: the target column and the regressors
+    scale = max(nb ** 2, nA ** 2 / max(1, A.shape[1]), 1e-300)
     if e is not None:
         c.compare('%s:returned-error-is-the-residual-energy' % tag, e, energy, 1e-9 * max(1.0, cond), feats, scale=scale,
                   detail={'N': len(x), 'order': p, 'cond': cond})
@@ -111,7 +112,8 @@ def judge_marple(c, tag, x, p, method, coef, pvar, norm, feats):
     c.compare('%s:trailing-entries-zero' % tag, coef[p:], np.zeros(len(coef) - p), 0.0, feats, scale=1.0)
     nb2 = float(np.linalg.norm(D[:, 0])) ** 2
     c.compare('%s:variance-is-minimum-per-sample' % tag, pvar, emin / norm, tol, feats,
-              scale=max(nb2 / norm, 1e-300), detail={'N': N, 'order': p, 'cond': cond})
+              scale=max(nb2 / norm, float(np.linalg.norm(D[:, 1:])) ** 2 / (max(1, p) * norm), 1e-300),
+              detail={'N': N, 'order': p, 'cond': cond})
 
 
 def post_arcovar_marple(x, order, result):
